@@ -356,6 +356,22 @@ func c04Child(a *ChildArgs) {
 		avoid := mon.AvoidFeatures()
 		base := a.Seed*7919 + int64(a.Shard)*104729
 		if a.Shard == 0 {
+			// a word that only case-folds to a keyword (Kelvin sign, long s, dotless i) is a name: the statement is judged
+			// exactly like the same statement with an ordinary name in that place
+			for _, pair := range [][2]string{
+				{"SELECT a rli\u212ae 'x' FROM t", "SELECT a rlixe 'x' FROM t"}, {"SELECT a ili\u212ae 'x' FROM t", "SELECT a ilixe 'x' FROM t"},
+				{"SELECT GROUP_CONCAT(a \u017feparator ',') FROM t", "SELECT GROUP_CONCAT(a xeparator ',') FROM t"}, {"SELECT a FROM t FOR \u017fhare", "SELECT a FROM t FOR xhare"},
+				{"\u017felect a FROM t", "xelect a FROM t"}, {"SELECT a FROM t WHERE a \u0131n (1)", "SELECT a FROM t WHERE a xn (1)"},
+			} {
+				_, e1 := gosqlx.Parse(pair[0])
+				_, e2 := gosqlx.Parse(pair[1])
+				a.Rec.Count("evaluations", 1)
+				a.Rec.Distinct("texts", pair[0])
+				if (e1 == nil) != (e2 == nil) {
+					a.Rec.Viol("C04/statements/fold-spelled-keyword", "each element with its kind: a word that merely case-folds to a keyword is a name",
+						fmt.Sprintf("%q: err=%v; with an ordinary name %q: err=%v", pair[0], e1, pair[1], e2), map[string]interface{}{"text": pair[0], "control": pair[1]})
+				}
+			}
 			// a literal or quoted name whose whole content spells a keyword (or a compound keyword) is still a literal
 			// or a name for the parser: every quoting form the expression grammar takes (triple-quoted strings are lexical only), every such content
 			for _, content := range []string{"order by", "GROUP BY", "left join", "FULL OUTER JOIN", "cross join", "grouping sets", "select", "from", "ilike", "separator", "NULL"} {
